@@ -55,11 +55,28 @@ def lemma_find_first(s: str, c: str, k: int):
 	pass
 
 
+@lemma('C13', requires=['len(c) == 1', '0 <= k', 'k <= len(s)', 's.find(c, k) == -1'], ensures=['all(s[j] != c for j in range(k, len(s)))'])
+def lemma_find_none(s: str, c: str, k: int):
+	"""find returns -1 only when no position at or after k holds the character."""
+	pass
+
+
+contract(TOKENIZER, 'Lexer.parse_comment', 'C13', types={**LT, 'found_pair': 'list[str]', 'pair': 'str'},
+	rewrites={"[pair for pair in self._definition.comment if source.startswith(pair['open'], begin)]": "['#']", "pair['open']": "'#'", "pair['close']": "'\\n'"},
+	requires=['0 <= begin', 'begin < len(source)', "source.startswith('#', begin)"],
+	raises={},
+	ensures=[
+		# Top: a comment runs from its '#' to the end of its own line (the line break is not part of it), or to the end of the text; an empty body is a comment too
+		"implies(source.find('\\n', begin + 1) != -1, result[0] == source.find('\\n', begin + 1))",
+		"implies(source.find('\\n', begin + 1) == -1, result[0] == len(source))",
+		'begin < result[0]', "'\\n' not in source[begin:result[0]]",
+		'result[1]._string == source[begin:result[0]]'])
+
 contract(TOKENIZER, 'Lexer.parse_quote', 'C13', types={**LT, 'found_pair': 'list[str]', 'pair': 'str'},
 	instantiate={'qp_open,qp_close,qp_earlier': SINGLE},
 	rewrites={"[pair for pair in self._definition.quote if source.startswith(pair['open'], begin)]": '[qp_open]', "pair['open']": 'qp_open', "pair['close']": 'qp_close'},
 	lets={'lo': 'begin + len(qp_open)'},
-	requires=['0 <= begin', 'source.startswith(qp_open, begin)',
+	requires=['0 <= begin', 'begin + len(qp_open) <= len(source)', 'all(source[begin + k] == qp_open[k] for k in range(len(qp_open)))',
 		# the literal is terminated (the supported lexical subset): some quote after the opener closes it by Python's rule
 		'any(closes(source, qp_close, begin + len(qp_open), j) for j in range(begin + len(qp_open), len(source)))'],
 	raises={},
@@ -70,13 +87,18 @@ contract(TOKENIZER, 'Lexer.parse_quote', 'C13', types={**LT, 'found_pair': 'list
 		'result[1]._string == source[begin:result[0]]',
 		"result[1]._type == (T_Regexp if source[begin] == '/' else T_String)",
 	],
+	hints_exit=['implies(end <= len(source) and source.find(qp_close, end) == -1, lemma_find_none(source, qp_close, end))',
+		'cut(implies(end <= len(source) and source.find(qp_close, end) == -1, all(not closes(source, qp_close, lo, j) for j in range(end, len(source)))))'],
 	loops={
 		0: Loop(invariant=['lo <= end', 'end <= len(source)', "end == lo or source[end - 1] == qp_close", 'all(not closes(source, qp_close, lo, j) for j in range(lo, end))'],
 			decreases='len(source) - end',
 			hints_end=['lemma_find_first(source, qp_close, prev(end))',
 				'cut(all(not closes(source, qp_close, lo, j) for j in range(prev(end), index)))',
 				'cut(implies(escapes % 2 != 0, not closes(source, qp_close, lo, index)))',
-				'cut(all(not closes(source, qp_close, lo, j) for j in range(lo, index)))']),
+				'cut(all(not closes(source, qp_close, lo, j) for j in range(lo, index)))'],
+			hints_break=['implies(index >= 0, lemma_find_first(source, qp_close, prev(end)))',
+				'cut(implies(index >= 0, all(not closes(source, qp_close, lo, j) for j in range(prev(end), index))))',
+				'cut(implies(index >= 0, all(not closes(source, qp_close, lo, j) for j in range(lo, index))))']),
 		1: Loop(invariant=['0 <= escapes', 'end <= index - escapes', 'index < len(source)', 'end <= index',
 			'bs_run(source, end, index) == escapes + bs_run(source, end, index - escapes)'], decreases='index - escapes - end + 1',
 			hints_exit=['lemma_bs_run_cut(source, lo, end, index)']),
